@@ -41,6 +41,7 @@ typedef struct {
     char *name;
     uint16_t slot;
     char *struct_type;  /* Struct type name for field resolution (NULL if not a struct) */
+    bool hidden;        /* Declared in a block that has ended: slot stays allocated, name is out of scope */
 } Local;
 
 typedef struct {
@@ -238,10 +239,17 @@ static void patch_jump(CG *cg, uint32_t patch_off, uint32_t instr_off, uint32_t 
 
 static int16_t local_find(CG *cg, const char *name) {
     for (int i = cg->local_count - 1; i >= 0; i--) {
-        if (strcmp(cg->locals[i].name, name) == 0)
+        if (!cg->locals[i].hidden && strcmp(cg->locals[i].name, name) == 0)
             return (int16_t)cg->locals[i].slot;
     }
     return -1;
+}
+
+/* End of a lexical scope: names declared since `mark` go out of scope (an outer
+ * variable of the same name becomes visible again); their slots are not reused. */
+static void local_scope_end(CG *cg, uint16_t mark) {
+    for (int i = mark; i < cg->local_count; i++)
+        cg->locals[i].hidden = true;
 }
 
 static uint16_t local_add(CG *cg, const char *name, int line) {
@@ -253,6 +261,7 @@ static uint16_t local_add(CG *cg, const char *name, int line) {
     cg->locals[slot].name = (char *)name;
     cg->locals[slot].slot = slot;
     cg->locals[slot].struct_type = NULL;
+    cg->locals[slot].hidden = false;
     cg->local_count++;
     return slot;
 }
@@ -260,7 +269,7 @@ static uint16_t local_add(CG *cg, const char *name, int line) {
 /* Find the struct type name for a local variable (for field access resolution) */
 static const char *local_struct_type(CG *cg, const char *name) {
     for (int i = cg->local_count - 1; i >= 0; i--) {
-        if (strcmp(cg->locals[i].name, name) == 0)
+        if (!cg->locals[i].hidden && strcmp(cg->locals[i].name, name) == 0)
             return cg->locals[i].struct_type;
     }
     return NULL;
@@ -2016,6 +2025,7 @@ static void compile_expr(CG *cg, ASTNode *node) {
 
             /* Match succeeded: bind the entire union to the pattern variable
              * so v.value / v.error etc. can access variant fields via UNION_FIELD */
+            uint16_t arm_scope_mark = cg->local_count;
             if (binding && binding[0] != '\0') {
                 emit_op(cg, OP_DUP);  /* keep union on stack */
                 uint16_t bslot = local_add(cg, binding, node->line);
@@ -2034,6 +2044,9 @@ static void compile_expr(CG *cg, ASTNode *node) {
             if (node->as.match_expr.arm_bodies[i]->type == AST_BLOCK) {
                 emit_op(cg, OP_PUSH_VOID);
             }
+
+            /* The pattern variable is local to its arm */
+            local_scope_end(cg, arm_scope_mark);
 
             /* Jump to end */
             if (end_count < 64) {
@@ -2178,6 +2191,7 @@ static void compile_stmt(CG *cg, ASTNode *node) {
         }
 
         /* Compile the range expression (should produce an array) */
+        uint16_t for_scope_mark = cg->local_count;
         compile_expr(cg, node->as.for_stmt.range_expr);
         /* Store array in a temp local */
         uint16_t arr_slot = local_add(cg, "__for_arr__", node->line);
@@ -2248,13 +2262,16 @@ static void compile_stmt(CG *cg, ASTNode *node) {
         }
 
         cg->loop_depth--;
+        local_scope_end(cg, for_scope_mark);   /* the loop variable is local to the loop */
         break;
     }
 
     case AST_BLOCK: {
+        uint16_t scope_mark = cg->local_count;
         for (int i = 0; i < node->as.block.count; i++) {
             compile_stmt(cg, node->as.block.statements[i]);
         }
+        local_scope_end(cg, scope_mark);
         break;
     }
 
@@ -2486,9 +2503,11 @@ static void compile_stmt(CG *cg, ASTNode *node) {
     }
 
     case AST_UNSAFE_BLOCK: {
+        uint16_t scope_mark = cg->local_count;
         for (int i = 0; i < node->as.block.count; i++) {
             compile_stmt(cg, node->as.block.statements[i]);
         }
+        local_scope_end(cg, scope_mark);
         break;
     }
 
